@@ -85,6 +85,9 @@ func (prop) Extra(rng *rand.Rand, tier string) corr.ExtraResult {
 		"with_validator_change":           atomic.LoadInt64(&cntForgedVChange),
 		"contradictions_on_nonbetter_tip": atomic.LoadInt64(&cntNonBetterContra),
 	}
+	// how many generated blocks sat exactly at each limit producer and verifier share (boundary.go)
+	res.Notes["boundary_blocks"] = boundaryNotes()
+	add(boundaryDegenerate())
 	return res
 }
 
